@@ -54,6 +54,19 @@ chk("C08",
     TRUST + "Not decided: the history-level statement about which block is first; it follows from the ≤ comparison being re-evaluated at each block.",
     "typestate over abstract paths + ORD-EVAL (abstract interpretation over the 3 orderings of each compared pair, product for pairs) + enum evaluation", "DESIGN.md section 4 C08")
 
+chk("C11",
+    "Finite-case evaluation of the bid-modifying operation: the Bid record write is reachable exactly in the accepting cases of each precondition — auction lookup error, stored status (only Started), auction type (only Batch), bid lookup error under the message's (auction id, bid id), stored bidder = message bidder, message price ≥ MinBidPrice, stored denom = message denom, and all 9 orderings of (new price ? old price) × (new amount ? old amount) with accept set {≥}×{≥} minus {(=,=)}; every tracked comparison must actually be evaluated on some path (vacuity control). (MB-FIELDS) the written value is the loaded record with exactly Price and Coin replaced by the message's, under the key rebuilt from its own ids. (NO-DELETE) no Remove/Clear on Bid/Auction in non-test code (with a positive control on the scanner) and no message handler reaches a per-bidder refund out of a paying escrow.",
+    TRUST + "Not decided: equality of the summed charged differences and the final required reservation as numbers (structural reason decided under C01/C04).",
+    "ORD-EVAL / ENUM-EVAL: abstract interpretation of the handler over finite orderings and enum values + provenance of the written record", "DESIGN.md section 4 C11")
+chk("C12",
+    "Finite-case evaluation of the cancel operation: any cancellation effect (refund transfer, status write, auction store) is reachable exactly when the auction lookup succeeds, stored auctioneer = message auctioneer and stored status = StandBy. (CN-EFFECT) every non-failing path performs a transfer, assigns a zero coin to the fixed-price remainder, writes Cancelled and then stores the auction; the transfer's payer is the stored auction's selling escrow, its payee the stored auctioneer and its amount NewCoin(d, SpendableCoins(payer).AmountOf(d)) with d the stored selling denomination (drain-to-empty provenance); the record stored is the loaded one under its own id. Permanence of Cancelled is ST-TRANS (C08).",
+    TRUST + "Not decided: balances as numbers; bank semantics.",
+    "ORD-EVAL / ENUM-EVAL + effect automaton over abstract paths + provenance terms of the transfer operands", "DESIGN.md section 4 C12")
+chk("C13",
+    "Structural/finite-case conditions: (EXT-APPEND) the only non-constructor writer of EndTimes stores append(current EndTimes, last(current).AddDate(0,0,Params.ExtendedPeriod)) on the same auction, and creation passes the one-element list [msg.EndTime]; (EXT-BOUND) with MaxExtendedRound+1 = len(EndTimes) no EndTimes write is reachable in the settlement routine (with rounds left it is) and batch creation commits only for MaxExtendedRound ≤ the constant limit; (EXT-RULE) over (last = 0 | > 0) × (drop <,=,> rate) with rounds left, extension is reachable exactly for 'last = 0 or drop ≥ rate' and a settlement transfer exactly otherwise, and the compared quantity is 1 − Dec(current length)/Dec(stored last length); (EXT-ORDER) the stored last length is read before any write of it on every path; no message handler writes it.",
+    TRUST + "Not decided: 18-decimal rounding of cur/last; order-book evolution between end times.",
+    "ORD-EVAL over the decision's finite case split + writer table + provenance shape of the appended end time and the compared ratio", "DESIGN.md section 4 C13")
+
 PENDING = {}  # property -> reason (kept current as checks are added)
 ALL = ["C%02d" % i for i in range(1, 21)]
 for p in ALL:
